@@ -123,6 +123,8 @@ FUNCTIONS = {
             "forall(range(len(reaction_nodes)), lambda j: is_lvec(result[0][lix[j]], G, reaction_nodes[j], _species_nodes, n_s))",
             "forall(range(len(reaction_nodes)), lambda j: is_rvec(result[0][rix[j]], G, reaction_nodes[j], _species_nodes, n_s))",
             "forall(result[2].edges, lambda a, b: exists(range(len(reaction_nodes)), lambda j: same(a, lix[j]) and same(b, rix[j])))",
+            # ... and every complex of the list is the reactant or the product complex of some reaction
+            "forall(range(len(result[0])), lambda k: exists(range(len(reaction_nodes)), lambda j: lix[j] == k or rix[j] == k))",
         ],
         "loops": {
             1: {"modifies": ["CG.nodes", "CG.nattr", "CG.adj", "CG.eattr"],
@@ -147,11 +149,15 @@ FUNCTIONS = {
                     "forall(range(at_iter(len(complexes))), lambda k: same(complexes[k], at_iter(complexes[k])))",
                     "0 <= u_idx and u_idx < len(complexes) and same(complexes[u_idx], y)",
                     "0 <= v_idx and v_idx < len(complexes) and same(complexes[v_idx], y_prime)",
+                    "forall(range(len(complexes)), lambda k: implies(k >= at_iter(len(complexes)), k == u_idx or k == v_idx))",
                     "is_lvec(complexes[u_idx], G, r, _species_nodes, n_s) and is_rvec(complexes[v_idx], G, r, _species_nodes, n_s)",
                     "forall(('any', 'any'), lambda a, b: CG.has_edge(a, b) == (at_iter(CG.has_edge(a, b)) or (same(a, u_idx) and same(b, v_idx))))",
                     # the ghost index lists: old entries untouched, the new last entry is this reaction's pair
                     "len(lix) == done and len(rix) == done and lix[done - 1] == u_idx and rix[done - 1] == v_idx",
                     "forall(range(done - 1), lambda j: lix[j] == at_iter(lix[j]) and rix[j] == at_iter(rix[j]) and lix[j] < at_iter(len(complexes)) and rix[j] < at_iter(len(complexes)))",
+                    "forall(range(at_iter(len(complexes))), lambda k: exists(range(done - 1), lambda j: at_iter(lix[j]) == k or at_iter(rix[j]) == k))",
+                    {"assert": "forall(range(at_iter(len(complexes))), lambda k: exists(range(done - 1), lambda j: lix[j] == k or rix[j] == k))",
+                     "using": ["forall(range(at_iter(len(complexes))), lambda k: exists(range(done - 1), lambda j: at_iter(lix[j]) == k or at_iter(rix[j]) == k))", "forall(range(done - 1), lambda j: lix[j] == at_iter(lix[j]) and rix[j] == at_iter(rix[j]) and lix[j] < at_iter(len(complexes)) and rix[j] < at_iter(len(complexes)))"]},
                     "forall(range(done - 1), lambda j: at_iter(0 <= lix[j] and lix[j] < len(complexes) and 0 <= rix[j] and rix[j] < len(complexes)))",
                     {"assert": "forall(range(done - 1), lambda j: same(complexes[lix[j]], at_iter(complexes[lix[j]])) and same(complexes[rix[j]], at_iter(complexes[rix[j]])))",
                      "using": ["forall(range(at_iter(len(complexes))), lambda k: same(complexes[k], at_iter(complexes[k])))", "forall(range(done - 1), lambda j: lix[j] == at_iter(lix[j]) and rix[j] == at_iter(rix[j]) and lix[j] < at_iter(len(complexes)) and rix[j] < at_iter(len(complexes)))", "forall(range(done - 1), lambda j: at_iter(0 <= lix[j] and lix[j] < len(complexes) and 0 <= rix[j] and rix[j] < len(complexes)))"]},
@@ -182,6 +188,9 @@ FUNCTIONS = {
                     {"inv": "forall(range(done), lambda j: is_rvec(complexes[rix[j]], G, reaction_nodes[j], _species_nodes, n_s))",
                      "using": ["forall(range(done - 1), lambda j: is_rvec(complexes[rix[j]], G, reaction_nodes[j], _species_nodes, n_s))", "is_lvec(complexes[u_idx], G, r, _species_nodes, n_s) and is_rvec(complexes[v_idx], G, r, _species_nodes, n_s)", "len(lix) == done and len(rix) == done and lix[done - 1] == u_idx and rix[done - 1] == v_idx", "same(reaction_nodes[done - 1], r)"]},
                     "forall(CG.edges, lambda a, b: exists(range(done), lambda j: same(a, lix[j]) and same(b, rix[j])))",
+                    # every complex in the list stems from a reaction
+                    {"inv": "forall(range(len(complexes)), lambda k: exists(range(done), lambda j: lix[j] == k or rix[j] == k))",
+                     "using": ["forall(range(at_iter(len(complexes))), lambda k: exists(range(done - 1), lambda j: lix[j] == k or rix[j] == k))", "forall(range(len(complexes)), lambda k: implies(k >= at_iter(len(complexes)), k == u_idx or k == v_idx))", "len(lix) == done and len(rix) == done and lix[done - 1] == u_idx and rix[done - 1] == v_idx"]},
                 ]},
             2: {"modifies": [],
                 "facts": [
@@ -219,6 +228,7 @@ FUNCTIONS = {
             "reg_ok(idx_map, complexes, CG)",
             "0 <= result and result < len(complexes) and same(complexes[result], vec) and vec in idx_map and idx_map[vec] == result",
             "len(complexes) == old(len(complexes)) + (0 if old(vec in idx_map) else 1)",
+            "implies(not old(vec in idx_map), result == old(len(complexes)))",
             "forall(range(old(len(complexes))), lambda k: same(complexes[k], old(complexes[k])))",
             "forall(old(keys(idx_map)), lambda v: v in idx_map and idx_map[v] == old(idx_map[v]))",
             "forall(idx_map, lambda v: old(v in idx_map) or same(v, vec))",
